@@ -160,6 +160,9 @@ type genOpts struct {
 	MaxDeletes, MaxGC, MaxIters                                int
 	NoReopen                                                   bool
 	NoSleep                                                    bool
+	// AutoSweeps adds auto-span (chunk-sized) iterator traversals to the read mix
+	// (C10's territory; off for C01 whose statement is about time-range reads).
+	AutoSweeps bool
 }
 
 type planSeg struct {
@@ -451,7 +454,7 @@ func (p *planner) read() {
 	if rapid.IntRange(0, 3).Draw(p.t, "sweep") == 0 {
 		op.K = "sweep"
 		op.Span = int64(rapid.IntRange(20, 2500).Draw(p.t, "span"))
-		if rapid.IntRange(0, 2).Draw(p.t, "auto") == 0 {
+		if p.o.AutoSweeps && rapid.IntRange(0, 2).Draw(p.t, "auto") == 0 {
 			op.Span = 0
 			op.Chunk = int64(rapid.IntRange(1, 9).Draw(p.t, "chunk"))
 		}
@@ -677,9 +680,9 @@ func (r *vRun) checkRead(what string, fr Frame, keys []uint32, a, b int64) *drv.
 		ms := fr.Get(ChannelKey(k))
 		got := decodeVals(ms)
 		c := r.chans[k]
-		if strings.Contains(what, "chunk=") && !strings.Contains(what, "chunk=0") && len(got) > len(want) && r.isInexactStartDup(k, want, got) {
-			return drv.Failf("read-mismatch", "autospan-dup:inexact-start-domain:"+dtClass(c),
-				"%s ch %d (%s) range [%d,%d): auto-span traversal repeated a sample of a domain whose start precedes its first sample; want ts=%v got=%v",
+		if strings.Contains(what, "chunk=") && !strings.Contains(what, "chunk=0") && len(got) > len(want) && isAutoSpanRedelivery(want, got) {
+			return drv.Failf("read-mismatch", "autospan-redelivery:"+dtClass(c),
+				"%s ch %d (%s) range [%d,%d): auto-span traversal delivered a sample twice in a row; want ts=%v got=%v",
 				what, k, c.DT, a, b, tsOf(want), shortVals(got))
 		}
 		// series time ranges ascending, non-overlapping
@@ -716,36 +719,18 @@ func (r *vRun) checkRead(what string, fr Frame, keys []uint32, a, b int64) *drv.
 	return nil
 }
 
-// isInexactStartDup reports whether got equals want except for samples repeated twice
-// in a row, at most one repeat per domain whose start lies strictly before its first
-// sample, the repeat lying at or after that domain's first sample (the auto-span step
-// that begins at such an inexact start re-delivers its last sample on the next step).
-func (r *vRun) isInexactStartDup(k uint32, want []tsmodel.Sample, got [][]byte) bool {
-	marks := r.inexact[k]
-	if len(marks) == 0 {
-		return false
-	}
-	var starts []int64
-	for ts := range marks {
-		starts = append(starts, ts)
-	}
-	sort.Slice(starts, func(i, j int) bool { return starts[i] < starts[j] })
-	j, dups, used := 0, 0, 0
+// isAutoSpanRedelivery reports whether got equals want except that some samples are
+// delivered twice in a row: the signature of an auto-span step that began at a point
+// which is not exactly a sample (iterator bound or domain start between samples) and
+// re-delivers its last sample on the following step.
+func isAutoSpanRedelivery(want []tsmodel.Sample, got [][]byte) bool {
+	j, dups := 0, 0
 	for i := 0; i < len(want); i++ {
 		if j >= len(got) || string(got[j]) != string(want[i].Val) {
 			return false
 		}
 		j++
-		if j < len(got) && string(got[j]) == string(want[i].Val) {
-			// a repeat: needs an unused inexact-start domain beginning at or before it
-			if used >= len(starts) || starts[used] > want[i].TS {
-				return false
-			}
-			// and the next domain start (if any) must lie after it
-			for used+1 < len(starts) && starts[used+1] <= want[i].TS {
-				used++
-			}
-			used++
+		if j < len(got) && string(got[j]) == string(want[i].Val) && (i+1 >= len(want) || string(want[i+1].Val) != string(want[i].Val)) {
 			j++
 			dups++
 		}
@@ -1031,6 +1016,9 @@ func (r *vRun) sweep(i int, op vOp) *drv.Failure {
 			return drv.Failf("unexpected-error", "iter:"+errSig(err), "op %d sweep: %v", i, err)
 		}
 		r.st.Probe("sweep_end_discontinuous_error")
+		if os.Getenv("VERIF_DEBUG") != "" {
+			fmt.Printf("DEBUG op %d sweep iterator error: %v\n", i, err)
+		}
 	}
 	if err := it.Close(); err != nil {
 		return drv.Failf("unexpected-error", "iter-close:"+errSig(err), "op %d sweep close: %v", i, err)
@@ -1058,6 +1046,35 @@ func (r *vRun) fullCheck(what string) *drv.Failure {
 		}
 	}
 	return nil
+}
+
+// dumpLayout decodes each channel's persisted index.domain (26-byte pointer records)
+// from the simulated disk; used for debugging and by the layout oracles.
+type vPtr struct {
+	Start, End int64
+	File       uint16
+	Off, Size  uint32
+}
+
+func (r *vRun) layout(k uint32) []vPtr {
+	b := r.core.Dump()["/"+strconv.Itoa(int(k))+"/index.domain"]
+	var out []vPtr
+	for i := 0; i+26 <= len(b); i += 26 {
+		out = append(out, vPtr{
+			Start: int64(binary.LittleEndian.Uint64(b[i:])), End: int64(binary.LittleEndian.Uint64(b[i+8:])),
+			File: binary.LittleEndian.Uint16(b[i+16:]), Off: binary.LittleEndian.Uint32(b[i+18:]), Size: binary.LittleEndian.Uint32(b[i+22:]),
+		})
+	}
+	return out
+}
+
+func (r *vRun) debugDump() {
+	if os.Getenv("VERIF_DEBUG") == "" {
+		return
+	}
+	for _, c := range r.sch.Chans {
+		fmt.Printf("DEBUG ch %d (%s) persisted pointers: %+v\n", c.Key, c.DT, r.layout(c.Key))
+	}
 }
 
 // countFiles reports how many N.domain data files channel k has (rollover probe).
@@ -1108,6 +1125,7 @@ func runSeq(t *testing.T, sc vScript, st *drv.Stats, setup func(r *vRun)) (fail 
 		for i, op := range sc.Ops {
 			changed, f := r.step(i, op)
 			if f != nil {
+				r.debugDump()
 				fail = f
 				return
 			}
